@@ -76,6 +76,13 @@ theorem splitDiffUpdates_src : Facts.C02.splitDiffUpdatesSrc =
 theorem isCommonSeqUpdate_src : Facts.C02.isCommonSeqUpdateSrc =
     "{ _, _, isPts := tg.IsPtsUpdate(u) _, isQts := tg.IsQtsUpdate(u) return isPts || isQts }" := rfl
 
+/-- `internalState.handleChannel`, pinned by source text (the value written by the initial
+`SetChannelPts` is the separate fact `creationStore`): an untracked channel whose access hash is
+unknown costs one `restoreAccessHash`; otherwise the stored channel pts is used if there is one,
+else `localPts = pts - ptsCount` is written and the worker starts from `localPts`. -/
+theorem handleChannel_src : Facts.C02.handleChannelSrc =
+    "{ if err := validatePts(pts, ptsCount); err != nil { s.log.Error(ctx, \"Pts validation failed\", log.Error(err), log.Any(\"update\", cu.update)) return nil } state, ok := s.channels[channelID] if !ok { accessHash, found, err := s.hasher.GetChannelAccessHash(context.Background(), s.selfID, channelID) if err != nil { s.log.Error(ctx, \"GetChannelAccessHash error\", log.Error(err)) } if !found { if date == 0 { date = s.date - 30 } else { date-- } accessHash, found = s.restoreAccessHash(ctx, channelID, date) if !found { s.log.Debug(ctx, \"Failed to recover missing access hash, update ignored\", log.Int64(\"channel_id\", channelID), log.Any(\"update\", cu.update), ) return nil } } localPts, found, err := s.storage.GetChannelPts(ctx, s.selfID, channelID) if err != nil { localPts = pts - ptsCount s.log.Error(ctx, \"GetChannelPts error\", log.Error(err)) } if !found { localPts = pts - ptsCount if err := s.storage.SetChannelPts(ctx, s.selfID, channelID, _); err != nil { s.log.Error(ctx, \"SetChannelPts error\", log.Error(err)) } } state = s.newChannelState(channelID, accessHash, localPts) s.channels[channelID] = state s.wg.Go(func() error { return state.Run(ctx) }) } return state.Push(ctx, cu) }" := rfl
+
 /-- **Recovery completes.** For any sequence `k`, any marker predicate, any tiled log (markers
 included), any start position `lo`, and any well-formed op list (arbitrary pushes of log entries —
 loss, duplication, reordering, affected results early/late/never — gap clears, honest differences
@@ -188,7 +195,7 @@ example : channelHistory orders =
 /-- The regenerated orders are the ones the manager-level invariant is proved for. -/
 theorem orders_good : GoodOrders orders :=
   ⟨by decide, by decide, by decide, by decide, by decide, by decide, by decide, by decide, by decide, by decide,
-   by decide, by decide, by decide, by decide, by decide, by decide, by decide, by decide, by decide⟩
+   by decide, by decide, by decide, by decide, by decide, by decide, by decide, by decide, by decide, by decide⟩
 
 /-- The regenerated guards: the apply callbacks dispatch only a non-empty converted batch
 (`applyQts` always: its batch has no markers), the difference branches dispatch when any of new
@@ -200,26 +207,34 @@ theorem dispatch_guards :
     Facts.C02.diffRerouteGuard = [4] ∧ Facts.C02.sliceRerouteGuard = [4] ∧ Facts.C02.chSendOutGuard = [4] := by
   decide
 
+/-- The initial channel state written on first contact is `localPts`. -/
+theorem creation_stores_local : orders.creationStoresLocal = true := by decide
+
 /-- **No update is lost, for the whole manager model.** Take any server world (log with distinct
-ids tiling every tracked sequence — `scnOK`), any persisted start, any number of tracked channels,
-any list of harness actions (pushes in any order with loss and duplicates, affected results,
-forced recoveries, sliced answers, timers).  For every tracked sequence `k`: if at the end the
-sequence's position is at or above every log position of `k` (recovery completed), then every
-non-marker entry of `k` above the start was dispatched by the manager, unless too-long was reported. -/
-theorem C02_manager_recovery_complete (w : World) (fp fq : Int) (fc : List (Nat × Int)) (acts : List Action)
-    (hS : scnOK w.log (seqKeys fc) (initOf w.p0 w.q0 w.c0) = true) (k : Nat) (hk : k ∈ seqKeys fc)
+ids tiling every tracked sequence — `scnOK`), any persisted start `fp fq fc`, any channels `cr`
+that are met for the first time during the run (each with its first-contact position, where its
+sequence starts), any list of harness actions (pushes in any order with loss and duplicates,
+affected results, forced recoveries, sliced answers, timers, transient failures, access hashes
+learned late).  For every tracked sequence `k`: if at the end the sequence's position is at or
+above every log position of `k` (recovery completed), then every non-marker entry of `k` above the
+start was dispatched by the manager, unless too-long was reported. -/
+theorem C02_manager_recovery_complete (w : World) (fp fq : Int) (fc cr : List (Nat × Int)) (acts : List Action)
+    (hpe : w.persisted = fc) (hcr : w.cr = cr)
+    (hS : scnOK w.log (seqKeys (fc ++ cr)) (initOf w.p0 w.q0 w.c0) = true) (k : Nat) (hk : k ∈ seqKeys (fc ++ cr))
     (b : Box) (hb : ((Mgr.start orders w fp fq fc).runActions orders acts).getBox k = some b)
     (hrec : ∀ e ∈ seqLog w.log k, e.pos ≤ b.state) :
-    complete (seqLog w.log k) (mkOf w.log) (initOf fp fq fc k)
+    complete (seqLog w.log k) (mkOf w.log) (initOf fp fq (fc ++ cr) k)
       (projSeq w.log k ((Mgr.start orders w fp fq fc).runActions orders acts).trace) = true := by
   have hscn := scn_of_ok _ _ _ hS
-  obtain ⟨hw, htr, hbox⟩ := mgr_projects orders orders_good w fp fq fc hscn acts k hk
+  obtain ⟨hw, htr, hbox⟩ := mgr_projects orders orders_good w fp fq fc cr hpe hcr hscn acts k hk
   rw [htr]
-  apply C02_recovery_complete k (mkOf w.log) (seqLog w.log k) _ (initOf fp fq fc k)
+  apply C02_recovery_complete k (mkOf w.log) (seqLog w.log k) _ (initOf fp fq (fc ++ cr) k)
     (hscn.tiledK k hk) _ hw
   intro e he
   rw [hb] at hbox
-  rw [← Option.some.inj hbox]
-  exact hrec e he
+  rcases hbox with hbox | ⟨hbox, _⟩
+  · rw [← Option.some.inj hbox]
+    exact hrec e he
+  · cases hbox
 
 end TdModel.C02
